@@ -340,11 +340,109 @@ func cmdRoute(args []string) {
 				stats["send:"+so[0].(string)]++
 			}
 		}
+		// ---- a burst through ONE worker: the transports consume queued messages later, so what matters is what each
+		// message says when it is dispatched, i.e. after the worker has gone on to the next submissions ----
+		for _, c := range sendBurst(r, m) {
+			cases = append(cases, c)
+			stats["send"]++
+			stats["send:burst"]++
+		}
 		_ = bytes.MinRead
 		if err := enc.Encode(map[string]any{"family": "route", "seed": sd, "cases": cases, "stats": stats}); err != nil {
 			panic(err)
 		}
 	}
+}
+
+func decodeBody(raw []byte) term {
+	var body map[string]json.RawMessage
+	_ = json.Unmarshal(raw, &body)
+	var bt string
+	_ = json.Unmarshal(body["type"], &bt)
+	if bt == "notify" {
+		var pp struct {
+			Id string `json:"id"`
+		}
+		_ = json.Unmarshal(body["promise"], &pp)
+		return C("BNotify", S(pp.Id))
+	}
+	var tt struct {
+		Id      string `json:"id"`
+		Counter int    `json:"counter"`
+	}
+	_ = json.Unmarshal(body["task"], &tt)
+	var hr map[string]string
+	_ = json.Unmarshal(body["href"], &hr)
+	return C("BTask", S(bt), S(tt.Id), tt.Counter, S(hr["claim"]), S(hr["complete"]), S(hr["heartbeat"]))
+}
+
+// K submissions handed to one SenderWorker back to back; the capturing transports keep the messages and look at
+// them only after the last Process call (as the real transports do from their own queues)
+func sendBurst(r *rng, m *metrics.Metrics) []term {
+	caps := map[string]*capPlugin{"http": {ty: "http", ok: true}, "poll": {ty: "poll", ok: true}}
+	a := &capAIO{}
+	wk := sender.VerifWorker(map[string]*receiver.Recv{}, []aio.Plugin{caps["http"], caps["poll"]}, a, m)
+	type sent struct {
+		ty      string
+		data    string
+		bodyExp term
+		idx     int // index of its message in the transport's queue, -1 if none
+		panicked bool
+	}
+	k := 2 + r.intn(3)
+	sends := []sent{}
+	for j := 0; j < k; j++ {
+		ty := pick(r, []string{"poll", "http"})
+		data := `{"group":"g","id":"i"}`
+		if ty == "http" {
+			data = `{"url":"http://h/x"}`
+		}
+		recvBytes, _ := json.Marshal(&receiver.Recv{Type: ty, Data: json.RawMessage(data)})
+		mt := pick(r, []message.Type{message.Invoke, message.Resume, message.Notify})
+		// ids of equal and of different lengths
+		tk := &task.Task{Id: pick(r, []string{"ta", "tb", "tc", "t-long-id", "u"}), Counter: 1 + r.intn(9), Recv: recvBytes, Mesg: &message.Mesg{Type: mt, Root: "r", Leaf: "l"}}
+		sub := &t_aio.Submission{Kind: t_aio.Sender, Sender: &t_aio.SenderSubmission{Task: tk, ClaimHref: "c/" + tk.Id, CompleteHref: "k/" + tk.Id, HeartbeatHref: "h/" + tk.Id}}
+		var bodyExp term
+		if mt == message.Notify {
+			pid := pick(r, []string{"np", "nq", "n-long"})
+			sub.Sender.Promise = &promise.Promise{Id: pid, State: promise.Resolved}
+			bodyExp = C("BNotify", S(pid))
+		} else {
+			bodyExp = C("BTask", S(string(mt)), S(tk.Id), tk.Counter, S("c/"+tk.Id), S("k/"+tk.Id), S("h/"+tk.Id))
+		}
+		st := sent{ty: ty, data: data, bodyExp: bodyExp, idx: -1}
+		before := len(caps[ty].msgs)
+		func() {
+			defer func() {
+				if e := recover(); e != nil {
+					st.panicked = true
+				}
+			}()
+			wk.Process(&bus.SQE[t_aio.Submission, t_aio.Completion]{Id: fmt.Sprintf("s%d", j), Submission: sub})
+		}()
+		if len(caps[ty].msgs) == before+1 {
+			st.idx = before
+		}
+		sends = append(sends, st)
+	}
+	out := []term{}
+	for j, st := range sends {
+		var sobs term
+		switch {
+		case st.panicked:
+			sobs = C("OPanic")
+		case st.idx < 0:
+			sobs = C("OLost")
+		default:
+			mm := caps[st.ty].msgs[st.idx]
+			sobs = C("ODeliver", S(st.ty), S(canon(mm.Data)), decodeBody(mm.Body))
+			if j >= len(a.cqes) || a.cqes[j].Error != nil || a.cqes[j].Completion == nil || !a.cqes[j].Completion.Sender.Success {
+				sobs = C("OLost")
+			}
+		}
+		out = append(out, C("CSend", L(), L(P(S("http"), true), P(S("poll"), true)), C("RPhysical", S(st.ty), S(canon([]byte(st.data)))), C("UOther"), st.bodyExp, sobs))
+	}
+	return out
 }
 
 func init() { extraCmds["route"] = cmdRoute }
